@@ -1,13 +1,14 @@
 #!/bin/bash
 # tools/seed_verify.sh <ID-label> <patch> <demo-file> <dir-in-repo-for-demo> <go-test-package> [-run pattern]
 # Confirms an independently written property-breaking change in a scratch worktree:
+#  (BASE=<commit> checks against that commit instead of HEAD.)
 #  (1) builds, (2) existing suite passes with it, (3) demo FAILS with it, (4) demo PASSES without it.
 set -u
 LABEL=$1; PATCH=$(readlink -f $2); DEMO=$(readlink -f $3); DDIR=$4; PKG=$5; shift 5
 export GOFLAGS=-mod=mod GOPROXY=off; unset GOSUMDB
 WT=/tmp/seedverify-$LABEL
 git -C /repo worktree remove --force $WT 2>/dev/null
-git -C /repo worktree add -q --detach $WT HEAD || exit 2
+git -C /repo worktree add -q --detach $WT ${BASE:-HEAD} || exit 2
 cd $WT
 if ! git apply $PATCH; then echo "RESULT $LABEL patch-does-not-apply"; git -C /repo worktree remove --force $WT; exit 1; fi
 if ! go build ./... 2>/tmp/sv-$LABEL.err; then echo "RESULT $LABEL build-fails"; git -C /repo worktree remove --force $WT; exit 1; fi
